@@ -1,7 +1,12 @@
 SPECIFICATION SpecE
 CONSTANTS
   TF = 3
-  MaxLen = 4
-  MaxOps = 2
+  MaxLen = 8
+  MaxOps = 3
+  Menu <- MenuWide
+  Pairs <- PairsWide
+  Sym <- SymWide
+  MCfgs <- MCfgsWide
+  ChunkMax <- ChunkWide
 INVARIANT Emit
 CHECK_DEADLOCK FALSE
